@@ -177,6 +177,7 @@ func main() {
 			os.Exit(2)
 		}
 	case "replay":
+		runtime.GOMAXPROCS(1) // per-P state (sync.Pool) must not depend on where goroutines land
 		os.Exit(runReplay(*file, true))
 	case "minimise":
 		os.Exit(runMinimise(*file, *out))
@@ -237,6 +238,9 @@ func runWorker(master uint64, worker, workers, scheds, maxProgs int, budget floa
 				if o.Mutate != 0 {
 					st.Faults["failing_op"]++
 				}
+				if o.Poison != 0 {
+					st.Faults["failing_encode"]++
+				}
 				if ti := catByName[o.Type]; ti != nil && !ti.Reflectable {
 					st.Faults["failing_first_use"]++
 				}
@@ -245,6 +249,26 @@ func runWorker(master uint64, worker, workers, scheds, maxProgs int, budget floa
 		progress()
 		adm := computeAdmissible(w, prep, warm, wseed, 4)
 		st.SeqOrders += adm.orders + w.NumOps()
+		if adm.SeqViolation != nil {
+			v := adm.SeqViolation
+			st.Executions++
+			st.Probes["workloads_rejected_by_sequential_reference"]++
+			if !seenKeys[v.Key()] && seqVerifyBudget > 0 {
+				// A sequential anomaly can be caused by process-wide state that an EARLIER workload of
+				// this process left behind; only a workload that shows it by itself, in a fresh
+				// process, is reported (and is then exactly replayable).
+				seqVerifyBudget--
+				rp := &Replay{Property: "C10", MasterSeed: master, RunIndex: idx, SchedIndex: -1, Workload: w,
+					Run: RunCfg{Policy: simrt.Policy{Mode: "serial"}}, Violation: v, FindingKey: v.Key(), Note: "found by the sequential reference execution (no concurrency needed)"}
+				if probeInChild(rp, outPath) == v.Key() {
+					seenKeys[v.Key()] = true
+					res.Violations = append(res.Violations, rp)
+				} else {
+					st.Probes["sequential_anomaly_not_reproduced_in_fresh_process"]++
+				}
+			}
+			continue
+		}
 		if adm.SeqDeadlock {
 			v := &Violation{Class: "deadlock", Task: -1, Op: -1, Detail: "a purely sequential execution of this workload on one shared instance blocks forever (a lock is never released)"}
 			res.Violations = append(res.Violations, &Replay{Property: "C10", MasterSeed: master, RunIndex: idx, SchedIndex: -1, Workload: w,
@@ -289,6 +313,7 @@ func runWorker(master uint64, worker, workers, scheds, maxProgs int, budget floa
 			st.Probes["overlap_enter_build_while_other_inside"] += r.Stats.OverlapBuild
 			st.Probes["blocked_yields"] += r.Stats.BlockedYields
 			st.Probes["once_waits"] += r.Stats.OnceWaits
+			st.Probes["rwmutex_writer_queued"] += r.Stats.WriterQueued
 			st.SwitchHist[bucket(r.Stats.Switches)]++
 			vs := judge(w, prep, warm, adm, r, wseed, estYields)
 			if !r.Deadlock && !r.Capped {
@@ -370,6 +395,33 @@ done:
 	return res
 }
 
+var seqVerifyBudget = 12
+
+// probeInChild runs one replay file in a fresh single-P process and returns the key of the
+// violation it shows ("" if none).
+func probeInChild(rp *Replay, outPath string) string {
+	dir, err := os.MkdirTemp("", "c10probe")
+	if err != nil {
+		return ""
+	}
+	defer os.RemoveAll(dir)
+	b, _ := json.Marshal(rp)
+	path := dir + "/cand.json"
+	if err := os.WriteFile(path, b, 0o644); err != nil {
+		return ""
+	}
+	cmd := exec.Command(os.Args[0], "-mode", "probe", "-file", path)
+	cmd.Env = append(os.Environ(), "GOMAXPROCS=1", "GORACE=log_path="+dir+"/race halt_on_error=0 exitcode=0 history_size=4")
+	outb, _ := cmd.Output()
+	progress()
+	for _, ln := range strings.Split(string(outb), "\n") {
+		if strings.HasPrefix(ln, "PROBE-KEY=") {
+			return strings.TrimPrefix(ln, "PROBE-KEY=")
+		}
+	}
+	return ""
+}
+
 var lastProgress atomic.Int64
 
 func progress() { lastProgress.Store(time.Now().Unix()) }
@@ -436,6 +488,9 @@ func replayOnce(rp *Replay, attempts int, keepEvents bool) (*Violation, *RunResu
 	w := rp.Workload
 	prep, warm := prepareAll(w)
 	adm := computeAdmissible(w, prep, warm, 1, 4)
+	if adm.SeqViolation != nil {
+		return adm.SeqViolation, &RunResult{}
+	}
 	if adm.SeqDeadlock {
 		return &Violation{Class: "deadlock", Task: -1, Op: -1, Detail: "a purely sequential execution of this workload on one shared instance blocks forever (a lock is never released)"}, &RunResult{Deadlock: true}
 	}
@@ -647,6 +702,7 @@ func init() {
 	if len(os.Args) > 2 && os.Args[1] == "-mode" && os.Args[2] == "probe" {
 		log.DefaultLogger = log.NewCallbackLogger(func(string, string, map[string]interface{}) {})
 		stdlog.SetOutput(io.Discard)
+		runtime.GOMAXPROCS(1)
 		initRaceLog()
 		buildCatalogue()
 		file := ""
